@@ -1016,6 +1016,9 @@ func (d *Data) Initialize() {
 		} else {
 			dvid.Criticalf("Can't load JSON schema for neuronjson %q: %v\n", d.DataName(), err)
 		}
+		if value, err := d.loadMetadata(ctx, JSONSchema); err == nil && value != nil {
+			d.metadata[JSONSchema] = value
+		}
 		if value, err := d.loadMetadata(ctx, NeuSchema); err == nil {
 			dvid.Infof("Metadata load of neutu/neu3 JSON schema for %s: %d bytes\n", leafUUID[:6], len(value))
 			if value != nil {
